@@ -81,3 +81,15 @@ End C09.
 Print Assumptions C09_first_moment_time_rescaling_given_ExpLaws.
 Print Assumptions C09_regularisation_exact_given_ExpLaws.
 Print Assumptions C09_cdf_time_rescaling_given_ExpLaws.
+
+(* ------------------------------------------------------------------------------------------------
+   Unconditional over the reals: the laws E0-E2 (and positivity) are theorems about the real matrix
+   exponential mexp (analysis/MExp.v: entrywise limit of the exponential series), so the statements
+   above hold for the matrix exponential itself, not only "given ExpLaws". *)
+From PG Require Import analysis.Rstruct analysis.RSums analysis.MExp analysis.MExpLaws.
+
+Theorem C09_first_moment_time_rescaling_real :
+  forall n (a : 'rV[R]_n) (S S' Rw : 'M[R]_n) (c t : R),
+    c *: S' = S -> m1 (fun n : nat => @mexp n) a S' Rw (c * t) = c *: m1 (fun n : nat => @mexp n) a S Rw t.
+Proof. by move=> *; apply: (m1_time_rescaling (expm := fun n : nat => @mexp n) (@mexp_intertwine)). Qed.
+Print Assumptions C09_first_moment_time_rescaling_real.
